@@ -35,8 +35,10 @@ import (
 	"time"
 
 	"verif/core"
+	"verif/glife"
 	"verif/seqx"
 	"verif/sig"
+	"verif/vrt"
 )
 
 // shardPart names the family this shard process works for ("" in the
@@ -353,6 +355,21 @@ func replay(path string) {
 		v = replayParsers(a.Sub, a.Replay)
 	case a.Sub == "precondition-headers":
 		v = replayPrecond(a.Replay)
+	case strings.HasPrefix(a.Sub, "liveness"):
+		var r struct {
+			Program string `json:"program"`
+			Choices []int  `json:"choices"`
+		}
+		if err := json.Unmarshal(a.Replay, &r); err != nil {
+			fmt.Println(err)
+			os.Exit(2)
+		}
+		for _, p := range livenessPrograms() {
+			if p.Name == r.Program {
+				_, _, v = vrt.ReplayChoices(p, r.Choices)
+			}
+		}
+		glife.Cleanup()
 	case a.Sub == delayedConfig().Name:
 		var r struct {
 			Ops []dop `json:"ops"`
